@@ -39,6 +39,7 @@ class OpResult {
     }
     if (ptr_) {
       ptr_->~T();
+      ptr_ = nullptr;
     }
 
     if (oth) {
@@ -55,6 +56,7 @@ class OpResult {
     }
     if (ptr_) {
       ptr_->~T();
+      ptr_ = nullptr;
     }
 
     if (oth) {
@@ -78,6 +80,7 @@ class OpResult {
   T& emplace(Args&&... args) {
     if (ptr_) {
       ptr_->~T();
+      ptr_ = nullptr;
     }
     ptr_ = new (buf_) T(std::forward<Args>(args)...);
     return *ptr_;
